@@ -187,6 +187,11 @@ class Window:
                     self.n = z3.simplify(z3ify(self.n) + 1)
                 return None
             return Fn(model=append, name="append")
+        if name == "clear":
+            def clear(ex, st, args, kwargs):
+                self.base = z3.simplify(z3ify(self.base) + z3ify(self.n))
+                self.n = 0
+            return Fn(model=clear, name="clear")
         raise Undecided(f"deque method {name}")
 
     def same_value(self, ex, other):
@@ -313,6 +318,11 @@ def build(tier):
                          "self.n_step_buffer", "self.done_key"],
                ensures=["RB_INV(self)", "add_ok(self, old(self), result)"],
                replay="c10:nstep")
+    # clear() empties the buffer INCLUDING the pending window: no transition stored later may start from, or sum rewards of,
+    # something added before the clear
+    P.contract(MS + "clear", params={"self": "obj:MS"}, requires=["RB_INV(self)"],
+               modifies=["self._size", "self._cursor", "self._storage", "self.initialized", "self.gtot", "self.n_step_buffer"],
+               ensures=["self._size == 0", "len(self.n_step_buffer) == 0"], frame_fields=False, replay="c10:clear")
     P.assumptions += ["A-REAL: rewards/discounts are reals; gamma**k is an uninterpreted pow with pow(x,0)=1",
                       "the window is a read-only sequence inside _get_n_step_info (deque(maxlen) semantics trusted in add)",
                       "stream continuity across env.reset() between agents in train_off_policy is a caller-history precondition (not checked)"]
